@@ -718,7 +718,13 @@ def check_tables(ctx, db, config):
         altsg = arena.alternatives(I2, r2.ret, set()) if r2.ret is not None else []
         reads = [(t, fs) for t, fs in altsg if not is_c(t)]
         fills = [t for t, fs in altsg if is_c(t)]
-        okb = len(reads) == 1 and ('lt', ('param', 2), app('len', ('param', 1))) in reads[0][1] and all((t[1] & 192) != 128 for t in fills) and len(fills) == 1
+        def checked_read(t, fs):
+            # under i < xs.len(), or through std's own checked access (`xs.get(i)` returned Some)
+            if ('lt', ('param', 2), app('len', ('param', 1))) in fs:
+                return True
+            gets = [f[1] for f in fs if f[0] == 'is' and f[2] == 'Some' and isinstance(f[1], tuple) and f[1] and f[1][0] == 'call' and f[1][1].endswith('<impl [T]>::get') and f[1][2][:2] == (('param', 1), ('param', 2))]
+            return any(g in subterms(t) for g in gets)
+        okb = len(reads) == 1 and checked_read(*reads[0]) and all((t[1] & 192) != 128 for t in fills) and len(fills) == 1
         if okb:
             ctx.ok('R3', 'lossy decoder: safe_get(xs, i) reads xs[i] only under i < xs.len() and otherwise yields a byte that is not a continuation byte', 'alternatives of the helper')
         else:
